@@ -438,5 +438,120 @@ class CollectionHistories(Unit):
                                   % (flags, lazy, last == "C1", list(h), len(out), len(ref[last])), case=case)
 
 
+def _ligature_order_font():
+    """GSUB ligature set that lists SHORTER ligatures before longer ones (legal: first match wins;
+    feaLib never writes it): the Ligature offset array is reversed in the binary table"""
+    import struct
+    from fontTools.ttLib.tables.DefaultTable import DefaultTable
+
+    data = tinyfont.build_bytes({"kind": "ttf", "shapes": "box", "glyphs": ["f", "i", "l", "f_i", "f_f_i", "f_l", "f_f_l", "f_f"],
+                                 "fea": "feature liga { sub f f i by f_f_i; sub f f l by f_f_l; sub f f by f_f; sub f i by f_i; sub f l by f_l; } liga;"})
+    font = TTFont(io.BytesIO(data), recalcTimestamp=False, lazy=True)
+    gsub = bytearray(font.reader["GSUB"])
+    (lookupList,) = struct.unpack_from(">H", gsub, 8)
+    (lookup,) = struct.unpack_from(">H", gsub, lookupList + 2)
+    lookup += lookupList
+    lookupType, _flag, subCount, sub = struct.unpack_from(">HHHH", gsub, lookup)
+    assert (lookupType, subCount) == (4, 1), (lookupType, subCount)
+    sub += lookup
+    fmt, _cov, setCount, ligSet = struct.unpack_from(">HHHH", gsub, sub)
+    assert (fmt, setCount) == (1, 1)
+    ligSet += sub
+    (ligCount,) = struct.unpack_from(">H", gsub, ligSet)
+    assert ligCount == 5
+    offsets = struct.unpack_from(">5H", gsub, ligSet + 2)
+    struct.pack_into(">5H", gsub, ligSet + 2, *reversed(offsets))
+    raw = DefaultTable("GSUB")
+    raw.data = bytes(gsub)
+    font.tables["GSUB"] = raw
+    out = io.BytesIO()
+    font.save(out)
+    check = TTFont(io.BytesIO(out.getvalue()))
+    order = [l.LigGlyph for l in check["GSUB"].table.LookupList.Lookup[0].SubTable[0].ligatures["f"]]
+    assert order == ["f_l", "f_i", "f_f", "f_f_l", "f_f_i"], order
+    return out.getvalue()
+
+
+def _untrimmed_hmtx_font(kind):
+    """hmtx with numberOfHMetrics == numGlyphs although the trailing advances are equal (legal; the
+    compiler would trim it): written as raw bytes"""
+    import struct
+    from fontTools.ttLib.tables.DefaultTable import DefaultTable
+
+    f = tinyfont.build({"kind": kind, "shapes": "box", "glyphs": ["a", "b", "c"]})
+    for g in ("a", "b", "c"):
+        f["hmtx"].metrics[g] = (500, f["hmtx"].metrics[g][1])
+    g = TTFont(io.BytesIO(tinyfont.to_bytes(f)), recalcTimestamp=False)
+    order = g.getGlyphOrder()
+    raw = b"".join(struct.pack(">Hh", *g["hmtx"].metrics[x]) for x in order)
+    t = DefaultTable("hmtx")
+    t.data = raw
+    g.tables["hmtx"] = t
+    g["hhea"].numberOfHMetrics = len(order)
+    g.recalcBBoxes = False
+    b = io.BytesIO()
+    g.save(b)
+    back = TTFont(io.BytesIO(b.getvalue()), lazy=True)
+    assert back["hhea"].numberOfHMetrics == len(order) and len(back.reader["hmtx"]) == 4 * len(order)
+    return b.getvalue()
+
+
+class NonCanonical(Unit):
+    name = "noncanonical-inputs"
+    rule = ("inputs that are legal but NOT what the compiler itself would write (a ligature set listing shorter ligatures first; an untrimmed hmtx in a TrueType and in a CFF font) x lazy in {None, True, False} x "
+            "every set of <= 2 decoded tables and the full set: the TTX dump of the decoded tables is taken, the font saved, the dump taken again, the font saved again; oracle: the two dumps are equal (modulo the derived counts numberOfHMetrics / numberOfVMetrics) "
+            "(saving leaves the in-memory content unchanged) and the second save equals the first; distinct = each (input, lazy, table set)")
+    chunk = 1
+    required_witnesses = ("ligature order input", "untrimmed hmtx input", "two tables decoded", "all tables decoded")
+
+    def setup(self, tier, seed):
+        self._inputs = {"ligature-order": _ligature_order_font(), "untrimmed-hmtx-ttf": _untrimmed_hmtx_font("ttf"), "untrimmed-hmtx-cff": _untrimmed_hmtx_font("cff")}
+
+    def cases(self, tier, seed):
+        for name in ("ligature-order", "untrimmed-hmtx-ttf", "untrimmed-hmtx-cff"):
+            for lazy in (None, True, False):
+                yield [name, lazy]
+
+    def check(self, case, rec):
+        name, lazy = case
+        data = self._inputs[name]
+        rec.witness("ligature order input" if name == "ligature-order" else "untrimmed hmtx input")
+        tags = [t for t in TTFont(io.BytesIO(data), lazy=True).keys() if t != "GlyphOrder"]
+        sets = [()] + [(t,) for t in tags] + list(itertools.combinations(tags, 2)) + [tuple(tags)]
+        for ts in sets:
+            rec.evals()
+            rec.nontrivial(key=[name, lazy, ts])
+            if len(ts) == 2:
+                rec.witness("two tables decoded")
+            if len(ts) == len(tags):
+                rec.witness("all tables decoded")
+            font = TTFont(io.BytesIO(data), lazy=lazy, recalcTimestamp=False)
+            for t in ts:
+                font[t]
+                if len(ts) == len(tags):
+                    font[t].ensureDecompiled() if hasattr(font[t], "ensureDecompiled") else None
+
+            def dump():
+                if not ts:
+                    return ""
+                buf = io.StringIO()
+                font.saveXML(buf, tables=list(ts), writeVersion=False)
+                # derived header fields that compile refreshes from the loaded tables are not content
+                return "\n".join(l for l in buf.getvalue().splitlines() if "<numberOfHMetrics " not in l and "<numberOfVMetrics " not in l)
+
+            label = "+".join(x.strip() for x in ts) or "none"
+            before = dump()
+            b1 = io.BytesIO()
+            font.save(b1)
+            after = dump()
+            b2 = io.BytesIO()
+            font.save(b2)
+            rec.transition(2)
+            if before != after:
+                rec.violation("noncanonical:dump-changed-by-save:%s:%s" % (name, label), "%s lazy=%s decoded %s: TTX dump of the decoded tables differs before / after save: %s" % (name, lazy, label, first_diff(before, after)), case=case)
+            if b1.getvalue() != b2.getvalue():
+                rec.violation("noncanonical:second-save-differs:%s:%s" % (name, label), "%s lazy=%s decoded %s: the second save differs from the first (%d vs %d bytes)" % (name, lazy, label, len(b1.getvalue()), len(b2.getvalue())), case=case)
+
+
 def units():
-    return [Histories(), Processes(), CollectionHistories()]
+    return [Histories(), Processes(), CollectionHistories(), NonCanonical()]
